@@ -317,14 +317,31 @@ def _add_alias_to_scope(name_ir, table, scope, alias, visibility, errors):
 def _resolve_head_of_field_reference(
     field_reference, table, current_scope, visible_scopes, source_file_name, errors
 ):
-    return _resolve_reference(
-        field_reference.path[0],
-        table,
-        current_scope,
-        visible_scopes,
-        source_file_name,
-        errors,
+    head = field_reference.path[0]
+    if head.has_field("canonical_name"):
+        return
+    target = _find_target_of_reference(
+        head, table, current_scope, visible_scopes, source_file_name, errors
     )
+    if target is None:
+        return
+    if not target.canonical_name.object_path:
+        # The only names a field reference can start with that are not fields
+        # or parameters are import aliases, which resolve to a whole module.
+        errors.append(
+            [
+                error.error(
+                    source_file_name,
+                    head.source_location,
+                    "'{}' is an imported module, not a field.".format(
+                        head.source_name[0].text
+                    ),
+                )
+            ]
+        )
+        return
+    assert not target.alias
+    ir_data_utils.builder(head).canonical_name.CopyFrom(target.canonical_name)
 
 
 def _resolve_reference(
